@@ -134,6 +134,37 @@ def run(res):
             ids = set(id(x) for x in nodes_of(o, []))
             if any(id(x) in ids for x in nodes_of(c, [])):
                 viol.append(('clone() shares a node with the original', M, t, None))
+        # history: a formula that has been hashed / used as a key is given new operands through its own constructor
+        # protocol (`__init__` -> `wrap_subformulas`); afterwards it must be == to, hash like, and be the same key as
+        # a freshly built formula with the new tree (and no longer equal to its old tree)
+        nonleaf = [(t, o) for t, o in zip(pool, objs) if isinstance(t, tuple) and t[0] != 'ap']
+        for t, _ in (nonleaf if len(nonleaf) < 60 else rng.sample(nonleaf, 60)):
+            same_shape = [u for u, _ in nonleaf if u[0] == t[0] and len(u) == len(t) and u != t]
+            if not same_shape:
+                continue
+            u = rng.choice(same_shape)
+            f = to_obj(t, L)
+            h0 = hash(f)
+            keyed = {f: 'old'}
+            try:
+                f.__init__(*[to_obj(c, L) for c in u[1:]])
+            except Exception as e:
+                viol.append(('re-initialising a %s node with the operands of %s raised %s' % (t[0], tree_str(u), type(e).__name__), M, t, u))
+                continue
+            if from_obj(f) != u:
+                viol.append(('re-initialised node has another tree than its new operands', M, u, from_obj(f)))
+                continue
+            g = to_obj(u, L)
+            if not (f == g and g == f):
+                viol.append(('a formula given new operands is not == to a fresh formula with the same tree', M, u, u))
+            elif hash(f) != hash(g):
+                viol.append(('after being hashed and then given new operands, a formula is == to a fresh formula with '
+                             'the same tree but hashes differently (was hashed as %s before)' % tree_str(t), M, u, u))
+            elif g not in {f} or f not in {g: 1}:
+                viol.append(('a formula given new operands and a fresh equal one are two keys in a set / dict', M, u, u))
+            if f == to_obj(t, L):
+                viol.append(('a formula given new operands still == its old tree', M, t, u))
+            del keyed, h0
         # Bool against Python bool, both directions
         for bval in (True, False):
             B = L.Bool(bval)
